@@ -141,6 +141,14 @@ def judgeS (method dim : Nat) (allowNull : Bool) (input : Option (List Rat))
         -- codings (1, 3), parameters k/16 and dimension ≤ 9 every intermediate result is a dyadic
         -- number of at most 32 bits, so double arithmetic is exact
         else if fired && method ≠ 2 && dim ≤ 9 && θ.all (fun t => (t * 16).den == 1) && p != q then "FAIL:exact_on_dyadic"
+        -- product codings (1, 3), state produced by a notification: every probability is a product of at
+        -- most n factors θ or 1-θ (1-θ is rounded once), so it is RELATIVELY accurate to n·2⁻⁵⁰ as long as
+        -- it stays clear of the denormal range: an entry that is 0 (or off by a factor) where the exact
+        -- value is a tiny positive number fails here, although the absolute test above cannot see it
+        -- (theorem `probs_sum_one`: every probability is POSITIVE on the open cube)
+        else if fired && method ≠ 2 && !((List.zip p q).all (fun (x, y) =>
+            decide (y < 1 / ((2 ^ 1000 : Nat) : Rat)) || decide (rabs (x - y) ≤ tolFire (2 * dim + 2) * y))) then
+          "FAIL:probs_match_params_rel"
         else match input with
           | some i =>
             if close tol p i && close tol p q then "ok"
